@@ -7,7 +7,12 @@ FILTERS = ["t/a", "t/+", "t/#", "#", "+/a", "$x/#", "+/+"]
 TOPICS = ["t/a", "t/b", "t", "$x/a", "u/a"]
 
 def gen(rng):
-    ops = [f"new mode={rng.choice(['overlap', 'onlyonce'])}", "conn p cp v=5 cs=1"]
+    faulty = rng.random() < 0.3
+    # pe=faulty: the session store reports a failure from Remove (after removing) while `api failremove 1` is in force: a member
+    # that leaves by session end must leave its groups whatever the session store answered (seed C11-4)
+    ops = [f"new mode={rng.choice(['overlap', 'onlyonce'])}" + (" pe=faulty" if faulty else ""), "conn p cp v=5 cs=1"]
+    if faulty:
+        ops.append("api failremove 1")
     if rng.random() < 0.6:
         ops.append(f"pub p {rng.choice(TOPICS)} q=1 pid=1 r=1 tag=r0")       # a retained message: never replayed on a shared subscribe
     names = ["a", "b", "c"][:rng.choice([2, 3, 3])]
